@@ -8,7 +8,9 @@ Record probe_case := {
   q_D : N;                     (* the deadline the handler set, ms after the start *)
   q_total_read : N;            (* bytes the handler read in total *)
   q_quiet : bool;              (* observed: no transport gave a decisive answer *)
-  q_slept : bool               (* observed: the handler returned without a Read having timed out *)
+  q_slept : bool;              (* observed: the handler returned without a Read having timed out or failed *)
+  q_fin : option (N * N);      (* the peer closes (kind 0: FIN) or resets (kind 1) at this instant (ms) *)
+  q_peer_close_seen : bool     (* observed: the handler's last Read returned the peer's close / reset *)
 }.
 
 Fixpoint mk_script (s : bytes) (sh : list (N * N)) : list (N * bytes) :=
@@ -19,6 +21,11 @@ Fixpoint mk_script (s : bytes) (sh : list (N * N)) : list (N * bytes) :=
 
 Definition is_sleep (a : action) : bool := match a with ASleep _ _ => true | _ => false end.
 Definition is_relay (a : action) : bool := match a with ARelay _ _ | AMarkActive _ => true | _ => false end.
+Definition ends_with_readerr (tf : N) (tr : list action) : bool :=
+  match rev tr with
+  | AReturn t :: AReadErr t' _ :: _ => (t =? tf)%N && (t' =? tf)%N
+  | _ => false
+  end.
 Definition ends_with_timeout (D : N) (tr : list action) : bool :=
   match rev tr with
   | AReturn t :: ATimeout t' :: _ => (t =? D)%N && (t' =? D)%N
@@ -33,13 +40,18 @@ Section WithTable.
     let stream := concat (map bspec_val (k_stream k)) in
     let wrap := model_wrap tbl k stream in
     let script := mk_script stream (q_script q) in
-    let tr := run wrap (N.to_nat 8192%N) (q_D q) (N.to_nat (k_tracked k)) (map tid_of (k_ts k)) script in
+    let tr := match q_fin q with
+              | None => run wrap (N.to_nat 8192%N) (q_D q) (N.to_nat (k_tracked k)) (map tid_of (k_ts k)) script
+              | Some (tf, kind) => run_end wrap (N.to_nat 8192%N) (q_D q) (N.to_nat (k_tracked k)) (map tid_of (k_ts k))
+                                           script tf (if (kind =? 0)%N then REof else RReset)
+              end in
     let found := is_some (k_found k) in
     chk tbl k &&
     (N.of_nat (read_by tr (q_D q - 1)) =? q_total_read q)%N &&
     Bool.eqb (existsb is_sleep tr) (q_slept q) &&
     Bool.eqb (existsb is_relay tr) found &&
-    Bool.eqb (ends_with_timeout (q_D q) tr) (negb (q_slept q) && negb found) &&
+    Bool.eqb (ends_with_timeout (q_D q) tr) (negb (q_slept q) && negb found && negb (q_peer_close_seen q)) &&
+    Bool.eqb (match q_fin q with Some (tf, _) => ends_with_readerr tf tr | None => false end) (q_peer_close_seen q) &&
     (* the theorem's hypothesis, decided on this probe, implies what was observed: whenever the
        handler was seen to react, the stream must present a valid tag (only evaluated then) *)
     (if q_quiet q && negb (q_slept q) then true
